@@ -26,6 +26,8 @@ impl OperationControl for EndProgram {
         matcher: &ReMatcher,
         position: usize,
     ) -> Box<dyn Iterator<Item = usize>> {
+        #[cfg(regexml_verif)]
+        crate::verif::tick();
         // An anchored match is successful only if we are at the end of the
         // string. Otherwise, match has succeeded unconditionally
         if matcher.anchored_match() {
